@@ -42,6 +42,19 @@ PLAN = {
     "C13": {"drive": [D("slack", 1000, 40000)]},
     "C14": {"drive": [D("relax_restore", 600, 30000)]},
     "C15": {"drive": [D("as_min", 500, 20000), D("best", 1500, 60000)]},
+    "C17": {
+        "gen": [G("mps", "Gen_Mps.cfg", module="Gen_Mps.tla"),
+                G("mpsrand", "Gen_MpsRand.cfg", module="Gen_Mps.tla", models=("mps_models", 300, 20000))],
+        "exhaustive_note": "20 bound scenarios x marker x 8 layouts; 3 row types x 3 RHS x 4 ranges x 3 objective RHS x 2 layouts; 5 sense forms x 8 layouts x 3 readers; 8 error classes x 8 layouts",
+        "chunk": 1500,
+    },
+    "C18": {"drive": [D("mps_roundtrip", 1500, 60000)]},
+    "C19": {
+        "gen": [G("qplib", "Gen_Qplib.cfg", module="Gen_Qplib.tla"),
+                G("qplibrand", "Gen_QplibRand.cfg", module="Gen_Qplib.tla", models=("qplib_models", 300, 20000))],
+        "exhaustive_note": "all 4x5x6 problem-type codes x {minimal, dense min, dense max} x 4 layouts; 4 error classes with expected line numbers",
+        "chunk": 1500,
+    },
     "C16": {
         "gen": [G("bound", "Gen_Fn_Bound.cfg"), G("contains", "Gen_Fn_Contains.cfg"), G("evalbound", "Gen_Fn_EvalBound.cfg"), G("content", "Gen_Fn_Content.cfg")],
         "drive": [D("eval_bound", 2000, 100000), D("content_factor", 2000, 100000)],
@@ -68,6 +81,9 @@ OWN = {
     "C13": {"drive": [D("slack", 1000, 40000)]},
     "C14": {"drive": [D("relax_restore", 600, 30000)]},
     "C15": {"drive": [D("as_min", 500, 20000), D("best", 1500, 60000)]},
+    "C17": {"mps_load": "*"},
+    "C18": {"mps_roundtrip": "*"},
+    "C19": {"qplib_load": "*"},
     "C16": {"bound_op": "*", "eval_bound": "*", "content_factor": "*"},
     "C05": {"evaluate": "*"},
     "C06": {"evaluate_samples": "*"},
